@@ -74,11 +74,15 @@ META = {
 DESIGN_REF = {k: f"DESIGN.md section 4, {k}" for k in META}
 
 
+# checks that have been reviewed (quiet on >= 5 seeds, mutants caught) and may be claimed
+READY = ["C01", "C02", "C07", "C11", "C18", "C20"]
+
+
 def main():
     checks, na = [], []
     for pid, m in sorted(META.items()):
         mods = glob.glob(os.path.join(HERE, "checks", pid.lower() + "_*.py"))
-        if not mods:
+        if not mods or pid not in READY:
             na.append({"property_id": pid, "reason": "check not built yet (planned in DESIGN.md section 4); not claimed"})
             continue
         checks.append({
